@@ -219,7 +219,7 @@ func vh_C14_annotations_Q() {
 
 // thorough tier
 func vh_C16_line_desc_T() {
-	vhC16(1, vhBounds{freeAlphabet: "a /", freeMax: 3, nameMax: 2, valueAlphabet: "a}", valueMax: 2, descAlphabet: "a )},{", descMax: 5, jsons: 4})
+	vhC16(1, vhBounds{freeAlphabet: "a /", freeMax: 3, nameMax: 2, valueAlphabet: "a}", valueMax: 2, descAlphabet: "a )},{", descMax: 4, jsons: 4})
 }
 func vh_C16_freetext_T() {
 	vhC16(3, vhBounds{freeAlphabet: "a /", freeMax: 4, nameMax: 1, valueAlphabet: "a", valueMax: 1, descAlphabet: "a", descMax: 1, jsons: 1})
